@@ -15,5 +15,6 @@ import Pms.Props.C05
 #print axioms Pms.Neigh.C05_nnearest_written
 #print axioms Pms.Neigh.C05_file_roundtrip_step
 #print axioms Pms.Neigh.C05_file_roundtrip
+#print axioms Pms.Neigh.C05_cutoff_via_file
 #print axioms Pms.Neigh.C05_weights_branch
 #print axioms Pms.Neigh.C05_int_roundtrip
